@@ -20,7 +20,7 @@ NONWRITING_METHODS = ('end', 'cend', 'rend', 'crend', 'cbegin', 'size', 'empty',
                       'parent_path', 'native', 'load', 'lock', 'expired', 'use_count', 'time_since_epoch', 'count')
 ELEMENT_ACCESS = ('begin', 'rbegin', 'data', 'operator[]', 'at', 'front', 'back', 'value', 'operator*', 'operator->',
                   'get', 'second', 'first')
-NONWRITING_CALLEES = ('std::span<', 'std::basic_string_view<', 'std::as_const', 'std::begin', 'std::end', 'std::size',
+NONWRITING_CALLEES = ('std::span<', 'std::optional<', 'std::basic_string_view<', 'std::as_const', 'std::begin', 'std::end', 'std::size',
                       'std::data', 'std::cbegin', 'std::cend', 'std::empty', 'std::get', 'std::holds_alternative',
                       'std::visit', 'std::min', 'std::max', 'std::addressof')
 
@@ -816,3 +816,37 @@ def reaches(fn, src_node, dst_node):
             return True
         dq.extend(s for s, _l, _f in cfg.out_edges(x))
     return False
+
+
+def must_pass_before_next_iteration(fn, start_block, is_required, loop_stmt):
+    """From block `start_block` (inside the body of `loop_stmt`) every path meets an element accepted by
+    is_required before control returns to the loop header (next iteration) or leaves the function.
+    Returns None if it holds, else a witness path (list of branch descriptions)."""
+    cfg = Cfg.of(fn)
+    headers = {b['id'] for b in cfg.blocks.values() if b.get('term') == loop_stmt}
+    if not headers:
+        raise AnalysisBroken('loop header of %s not found in the CFG of %s' % (fn.loc(loop_stmt), fn.q))
+
+    def has_req(bid):
+        return any(isinstance(e, int) and is_required(e) for e in cfg.blocks[bid]['e'])
+    prev = {start_block: None}
+    dq = deque([start_block])
+    while dq:
+        b = dq.popleft()
+        if b in headers or b == cfg.exit:
+            path = []
+            x = b
+            while prev.get(x) is not None:
+                pb, label = prev[x]
+                d = cfg.describe_edge(pb, label) if label else None
+                if d:
+                    path.append(d)
+                x = pb
+            return list(reversed(path)) + ['-> %s without the required step' % ('next iteration' if b in headers else 'function exit')]
+        if has_req(b):
+            continue
+        for s_, label, _f in cfg.out_edges(b):
+            if s_ not in prev:
+                prev[s_] = (b, label)
+                dq.append(s_)
+    return None
